@@ -48,7 +48,7 @@ ASSUMPTIONS = [
   'after a last position >= 2**53 trips `assert self.count_range(begin, end) > 0`; generated as a labelled '
   'probe class and counted as skipped-by-precondition, not as a violation',
   'subnormal existing positions are IN the domain (reachable by ~1075 insert-at-top operations); their '
-  'AssertionError is listed as known finding C20:subnormal-existing-assert',
+  'AssertionError was a finding (C20:subnormal-existing-assert), repaired in the repository',
   'an AssertionError is bucketed as C20:spurious-post-relabel-assert only when it comes from the post-relabel '
   'is_valid_range assert AND the same call on a harness-side copy of relabeling.py compiled without asserts '
   'returns a result that passes the whole oracle; any other AssertionError is an ordinary violation',
